@@ -42,97 +42,29 @@ End JInd.
 (* ------------------------------------------------------------------------------------------ *)
 (* JSON                                                                                        *)
 (* ------------------------------------------------------------------------------------------ *)
-Definition not_sq (c : ascii) : bool := negb (Ascii.eqb c sq_char).
-Definition noq (s : string) : bool := all_chars not_sq s.
-
-Lemma plain_char_facts : forall c, plain_char c = true -> json_escape_char c = String c "" /\ not_sq c = true.
-Proof. intros c; destruct c as [[|][|][|][|][|][|][|][|]]; vm_compute; intuition discriminate. Qed.
-
-Lemma num_char_noq : forall c, num_char c = true -> not_sq c = true.
-Proof. intros c; destruct c as [[|][|][|][|][|][|][|][|]]; vm_compute; intuition discriminate. Qed.
-
-Lemma digit_noq : forall c, is_digit c = true -> not_sq c = true.
-Proof. intros c; destruct c as [[|][|][|][|][|][|][|][|]]; vm_compute; intuition discriminate. Qed.
-
-Lemma json_escape_plain : forall s, all_chars plain_char s = true -> json_escape s = s /\ noq s = true.
-Proof.
-  induction s as [|c s IH]; intros H; [split; reflexivity|].
-  simpl in H. apply andb_true_iff in H as [Hc Hs]. destruct (IH Hs) as [E1 E2].
-  destruct (plain_char_facts _ Hc) as [F1 F2]. split.
-  - simpl. rewrite F1, E1. reflexivity.
-  - unfold noq. simpl. rewrite F2. exact E2.
-Qed.
-
-Lemma all_chars_weaken : forall (p q : ascii -> bool) s,
-  (forall c, p c = true -> q c = true) -> all_chars p s = true -> all_chars q s = true.
-Proof.
-  intros p q s Hpq. induction s as [|c s IH]; intros H; [reflexivity|].
-  simpl in *. apply andb_true_iff in H as [Hc Hs]. rewrite (Hpq _ Hc), (IH Hs). reflexivity.
-Qed.
-
-Lemma noq_app : forall a b, noq (a ++ b) = noq a && noq b.
-Proof. intros. apply all_chars_app. Qed.
-
-Lemma int_noq : forall z, noq (Z_to_string z) = true.
-Proof.
-  intros z. destruct (Z.ltb_spec z 0) as [Hn|Hp].
-  - rewrite (Z_to_string_neg z Hn). unfold noq. simpl.
-    apply (all_chars_weaken is_digit); [exact digit_noq|]. apply nonneg_text. lia.
-  - apply (all_chars_weaken is_digit); [exact digit_noq|]. apply nonneg_text. exact Hp.
-Qed.
-
-Lemma noq_join : forall l, Forall (fun s => noq s = true) l -> noq (join "," l) = true.
-Proof.
-  induction l as [|x l IH]; intros H; [reflexivity|].
-  inversion H as [|? ? Hx Hl]; subst. destruct l as [|y l]; [exact Hx|].
-  change (join "," (x :: y :: l)) with (x ++ "," ++ join "," (y :: l)).
-  rewrite !noq_app, Hx, (IH Hl). reflexivity.
-Qed.
-
 Definition item_text (kv : jvalue * jvalue) : string :=
   match kv with (k, x) => json_text k ++ ":" ++ json_text x end.
 Definition item_spec (kv : jvalue * jvalue) : string :=
   match kv with (k, x) => json_key_spec k ++ ":" ++ json_spec x end.
 
-(* on the fragment the rendered text is the RFC 8259 text, and it contains no single quote *)
-Lemma json_text_is_spec : forall v, jfrag v = true -> json_text v = json_spec v /\ noq (json_spec v) = true.
+(* with string keys the rendered text is the RFC 8259 text, whatever the strings contain *)
+Lemma json_text_is_spec : forall v, jkeys v = true -> json_text v = json_spec v.
 Proof.
-  induction v as [s|z|t|b| |l IH|kvs IH] using jvalue_ind2; intros H; simpl in H; try discriminate.
-  - destruct (json_escape_plain s H) as [E1 E2]. split.
-    + simpl. unfold fq, json_string_spec. simpl ostr. rewrite E1. reflexivity.
-    + change (noq ("""" ++ json_escape s ++ """") = true). rewrite E1, !noq_app, E2. reflexivity.
-  - split; [reflexivity|apply int_noq].
-  - split; [reflexivity|]. simpl. apply (all_chars_weaken num_char); [exact num_char_noq|exact H].
-  - assert (A : map json_text l = map json_spec l /\ Forall (fun s => noq s = true) (map json_spec l)).
-    { induction l as [|x l IHl]; [split; [reflexivity|constructor]|].
+  induction v as [s|z|t|b| |l IH|kvs IH] using jvalue_ind2; intros H; try reflexivity.
+  - assert (A : map json_text l = map json_spec l).
+    { induction l as [|x l IHl]; [reflexivity|].
       simpl in H. apply andb_true_iff in H as [Hx Hl]. inversion IH as [|? ? Px Pl]; subst.
-      destruct (Px Hx) as [E1 E2]. destruct (IHl Pl Hl) as [E3 E4].
-      simpl. rewrite E1, E3. split; [reflexivity|constructor; assumption]. }
-    destruct A as [A1 A2]. simpl. rewrite A1. split; [reflexivity|].
-    change (noq ("[" ++ join "," (map json_spec l) ++ "]") = true).
-    rewrite !noq_app, (noq_join _ A2). reflexivity.
-  - assert (A : map item_text kvs = map item_spec kvs /\ Forall (fun s => noq s = true) (map item_spec kvs)).
-    { induction kvs as [|[k x] kvs IHl]; [split; [reflexivity|constructor]|].
-      simpl in H. apply andb_true_iff in H as [Hkx Hl].
-      apply andb_true_iff in Hkx as [Hk Hx]. apply andb_true_iff in Hk as [Hks Hk].
-      inversion IH as [|? ? Pkx Pl]; subst. destruct Pkx as [Pk Px]. simpl in Pk, Px.
-      destruct (Pk Hk) as [E1 E2]. destruct (Px Hx) as [E3 E4]. destruct (IHl Pl Hl) as [E5 E6].
-      assert (KS : json_key_spec k = json_spec k) by (destruct k; try discriminate; reflexivity).
+      simpl. rewrite (Px Hx), (IHl Pl Hl). reflexivity. }
+    simpl. rewrite A. reflexivity.
+  - assert (A : map item_text kvs = map item_spec kvs).
+    { induction kvs as [|[k x] kvs IHl]; [reflexivity|].
+      simpl in H. apply andb_true_iff in H as [Hkx Hl]. apply andb_true_iff in Hkx as [Hk Hx].
+      inversion IH as [|? ? Pkx Pl]; subst. destruct Pkx as [_ Px]. simpl in Px.
+      assert (KS : json_text k = json_key_spec k) by (destruct k; try discriminate; reflexivity).
       change (map item_text ((k, x) :: kvs)) with ((json_text k ++ ":" ++ json_text x) :: map item_text kvs).
       change (map item_spec ((k, x) :: kvs)) with ((json_key_spec k ++ ":" ++ json_spec x) :: map item_spec kvs).
-      rewrite E1, E3, E5, KS. split; [reflexivity|].
-      constructor; [|exact E6]. rewrite !noq_app, E2, E4. reflexivity. }
-    destruct A as [A1 A2]. split.
-    + change (json_text (JDict kvs)) with ("{" ++ join "," (map item_text kvs) ++ "}"). rewrite A1. reflexivity.
-    + change (noq ("{" ++ join "," (map item_spec kvs) ++ "}") = true).
-      rewrite !noq_app, (noq_join _ A2). reflexivity.
-Qed.
-
-Lemma double_noq : forall s, noq s = true -> double_char sq_char s = s.
-Proof.
-  induction s as [|c s IH]; intros H; [reflexivity|].
-  unfold noq in H. simpl in H. apply andb_true_iff in H as [Hc Hs].
-  unfold not_sq in Hc. apply negb_true_iff in Hc. simpl. rewrite Hc, (IH Hs). reflexivity.
+      rewrite KS, (Px Hx), (IHl Pl Hl). reflexivity. }
+    change (json_text (JDict kvs)) with ("{" ++ join "," (map item_text kvs) ++ "}"). rewrite A. reflexivity.
 Qed.
 
 (* quote doubling is decodable for every content *)
@@ -150,22 +82,39 @@ Proof.
     unfold sql_unq; fold sql_unq. rewrite E, IH. reflexivity.
 Qed.
 
-Theorem json_on_fragment : forall v, jfrag v = true ->
+(* JSON.get_sql is exactly the standard SQL literal of the JSON text, for EVERY value *)
+Lemma json_sql_is_quote : forall v, json_sql (Some "'") v = sql_quote (json_text v).
+Proof. reflexivity. Qed.
+
+Theorem json_holds : forall v, jkeys v = true ->
   json_text v = json_spec v
   /\ json_sql (Some "'") v = sql_quote (json_spec v)
   /\ sql_decode (json_sql (Some "'") v) = Some (json_spec v).
 Proof.
-  intros v H. destruct (json_text_is_spec v H) as [E1 E2].
-  assert (E : json_sql (Some "'") v = sql_quote (json_spec v)).
-  { unfold json_sql, fq, sql_quote. simpl ostr. rewrite E1, (double_noq _ E2). reflexivity. }
-  split; [exact E1|]. split; [exact E|]. rewrite E. apply sql_decode_quote.
+  intros v H. pose proof (json_text_is_spec v H) as E.
+  split; [exact E|]. rewrite json_sql_is_quote, E. split; [reflexivity|apply sql_decode_quote].
+Qed.
+
+(* the former fragment is inside the quantifier *)
+Lemma jfrag_jkeys : forall v, jfrag v = true -> jkeys v = true.
+Proof.
+  induction v as [s|z|t|b| |l IH|kvs IH] using jvalue_ind2; intros H; try reflexivity.
+  - simpl in *. induction l as [|x l IHl]; [reflexivity|].
+    simpl in H. apply andb_true_iff in H as [Hx Hl]. inversion IH as [|? ? Px Pl]; subst.
+    simpl. rewrite (Px Hx), (IHl Pl Hl). reflexivity.
+  - simpl in *. induction kvs as [|[k x] kvs IHl]; [reflexivity|].
+    simpl in H. apply andb_true_iff in H as [Hkx Hl]. apply andb_true_iff in Hkx as [Hk Hx].
+    apply andb_true_iff in Hk as [Hks _].
+    inversion IH as [|? ? Pkx Pl]; subst. destruct Pkx as [_ Px]. simpl in Px.
+    simpl. rewrite Hks, (Px Hx), (IHl Pl Hl). reflexivity.
 Qed.
 
 (* ---- keyword contexts: only the outer literal quote depends on the context ---- *)
 Lemma json_sql_ctx_indep : forall c c' v, cx_secondary c = cx_secondary c' -> json_sql_ctx c v = json_sql_ctx c' v.
 Proof. intros c c' v H. unfold json_sql_ctx. rewrite H. reflexivity. Qed.
 
-Lemma json_sql_ctx_shape : forall c v, json_sql_ctx c v = fq (cx_secondary c) (json_text v).
+Lemma json_sql_ctx_shape : forall c v,
+  json_sql_ctx c v = fq (cx_secondary c) (double_quote (cx_secondary c) (json_text v)).
 Proof. reflexivity. Qed.
 
 (* every one of the ten query classes (constants read from the code on this run) uses the standard
@@ -176,19 +125,18 @@ Lemma class_ctxs_single_quote :
                            "MSSQLQuery"; "ClickHouseQuery"; "SQLLiteQuery"; "SnowflakeQuery"].
 Proof. split; reflexivity. Qed.
 
-Theorem json_on_fragment_ctx : forall c v, cx_secondary c = Some "'" -> jfrag v = true ->
+Lemma class_ctx_secondary : forall name c, In (name, c) class_ctxs -> cx_secondary c = Some "'".
+Proof.
+  intros name c Hin. destruct class_ctxs_single_quote as [A _]. rewrite forallb_forall in A.
+  specialize (A _ Hin). simpl in A. destruct (cx_secondary c) as [s|]; [|discriminate].
+  simpl in A. apply String.eqb_eq in A. congruence.
+Qed.
+
+Theorem json_holds_ctx : forall c v, cx_secondary c = Some "'" -> jkeys v = true ->
   json_sql_ctx c v = sql_quote (json_spec v) /\ sql_decode (json_sql_ctx c v) = Some (json_spec v).
 Proof.
   intros c v Hc H. unfold json_sql_ctx. rewrite Hc.
-  destruct (json_on_fragment v H) as (_ & E1 & E2). split; assumption.
-Qed.
-
-Theorem json_on_fragment_classes : forall name c v, In (name, c) class_ctxs -> jfrag v = true ->
-  json_sql_ctx c v = sql_quote (json_spec v) /\ sql_decode (json_sql_ctx c v) = Some (json_spec v).
-Proof.
-  intros name c v Hin H. apply json_on_fragment_ctx; [|exact H].
-  destruct class_ctxs_single_quote as [A _]. rewrite forallb_forall in A. specialize (A _ Hin). simpl in A.
-  destruct (cx_secondary c) as [s|]; [|discriminate]. simpl in A. apply String.eqb_eq in A. congruence.
+  destruct (json_holds v H) as (_ & E1 & E2). split; assumption.
 Qed.
 
 (* ------------------------------------------------------------------------------------------ *)
